@@ -24,6 +24,31 @@ def _one(items, what):
     return items[0]
 
 
+def _lift(repo, funcs):
+    """A private helper that did not exist in the reference tree is not an anchor: its top-level callers are
+    (a refactoring moved part of the anchored function's body into it)."""
+    from .inline import BASELINE
+
+    known = {f"{m}.{q}" for m, qs in BASELINE.items() for q in qs} if isinstance(BASELINE, dict) else set()
+    out = []
+    seen = set()
+    work = list(funcs)
+    while work:
+        f = work.pop()
+        if f.key in seen:
+            continue
+        seen.add(f.key)
+        is_new_helper = bool(known) and f.name.startswith("_") and not f.name.startswith("__") and f"{f.module.name}.{f.name}" not in known
+        if is_new_helper:
+            callers = [g for g in repo.all_funcs() if g.cls is None and g.parent is None and g is not f and any(isinstance(c, ast.Call) and isinstance(c.func, ast.Name) and c.func.id == f.name for c in ast.walk(g.node))]
+            if callers:
+                work.extend(callers)
+                continue
+        if f not in out:
+            out.append(f)
+    return out
+
+
 def self_attrs_assigned(fnode, selfname="self"):
     out = {}
     for n in ast.walk(fnode):
@@ -103,7 +128,7 @@ def _hasattr_tests(fnode, attrname):
 @_memo
 def typeorder_fn(repo):
     return _one(
-        [f for f in repo.all_funcs() if f.cls is None and f.parent is None and _hasattr_tests(f.node, "__type_order__")],
+        _lift(repo, [f for f in repo.all_funcs() if f.cls is None and f.parent is None and _hasattr_tests(f.node, "__type_order__")]),
         "type order function (tests hasattr(., '__type_order__'))",
     )
 
@@ -111,7 +136,7 @@ def typeorder_fn(repo):
 @_memo
 def subclasscheck_fn(repo):
     return _one(
-        [f for f in repo.all_funcs() if f.cls is None and f.parent is None and _hasattr_tests(f.node, "__is_supertype__")],
+        _lift(repo, [f for f in repo.all_funcs() if f.cls is None and f.parent is None and _hasattr_tests(f.node, "__is_supertype__")]),
         "subtype function (tests hasattr(., '__is_supertype__'))",
     )
 
